@@ -535,6 +535,10 @@ __strfd_card(
 			/* it's just bollocks */
 			return 0U;
 		}
+		if (UNLIKELY(bsz < (size_t)prec)) {
+			/* not enough room for PREC digits */
+			break;
+		}
 		res = ui9999topstr(buf, prec, y, 4U, padchar(s));
 		break;
 	}
@@ -637,10 +641,16 @@ __strfd_card(
 		}
 		break;
 	case DT_SPFL_S_QTR:
+		if (UNLIKELY(bsz < 2U)) {
+			break;
+		}
 		buf[res++] = 'Q';
 		buf[res++] = (char)(dt_get_quarter(that) + '0');
 		break;
 	case DT_SPFL_N_QTR:
+		if (UNLIKELY(bsz < 2U)) {
+			break;
+		}
 		buf[res++] = '0';
 		buf[res++] = (char)(dt_get_quarter(that) + '0');
 		break;
